@@ -26,6 +26,9 @@ ENDS = ["none", "bare", "start", "mid"]
 SUBSETS = [s for n in (1, 2, 3) for s in itertools.combinations(("bin", "cas", "dsk"), n)]
 
 
+PRE_SETS = [[0], [1, 3], [4, 2, 0]]       # indices into c16.FILES: what the existing target holds (built by the independent writers)
+
+
 def program(size, origin, nam, end):
     lines = []
     if nam is not None:
@@ -73,12 +76,20 @@ def cases(tier, seed):
                         subs = SUBSETS if (thorough or size in (1, 39, 2295)) else [("bin", "cas", "dsk"), ("dsk",), ("cas",)]
                         for sub in subs:
                             yield {"size": size, "origin": origin, "nam": nam, "cliname": cn, "end": end, "out": list(sub)}
+    # targets that already exist and hold files, written to with --append: the program must be ON the image afterwards
+    for size in (1, 39, 2295, 4600):
+        for origin in (None, 0x0E00):
+            for nam, cn in (("HELLO", None), (None, "cli"), ("UPPER", None)):
+                for end in ("none", "mid"):
+                    for sub in (("cas",), ("dsk",), ("cas", "dsk"), ("bin", "cas", "dsk")):
+                        for pre in PRE_SETS:
+                            yield {"size": size, "origin": origin, "nam": nam, "cliname": cn, "end": end, "out": list(sub), "pre": pre}
 
 
 def check_case(case):
     lines = program(case["size"], case["origin"], case["nam"], case["end"])
     cell = "size={}|org={}|nam={}|cli={}|end={}|{}".format(
-        case["size"], "none" if case["origin"] is None else "{:04X}".format(case["origin"]),
+        "{}{}".format(case["size"], "" if "pre" not in case else ".onto{}".format(len(case["pre"]))), "none" if case["origin"] is None else "{:04X}".format(case["origin"]),
         "none" if case["nam"] is None else "{}{}".format(len(case["nam"]), "u" if case["nam"].isupper() else "l" if case["nam"].islower() else "m"),
         "none" if case["cliname"] is None else ("u" if case["cliname"].isupper() else "l"), case["end"], "+".join(case["out"]))
     res = {"nontrivial": True, "outcome": "ok"}
@@ -108,6 +119,14 @@ def check_case(case):
         with open("p.asm", "w") as f:
             f.write("".join(ln + "\n" for ln in lines))
         kw = {"to_" + o: "out." + o for o in case["out"]}
+        npre = 0
+        if "pre" in case:
+            from . import c16
+            for o in case["out"]:
+                if o != "bin":
+                    c16.write_source("out." + o, o, case["pre"])
+            npre = len(case["pre"])
+            kw["append"] = True
         status, out = cli.assembler("p.asm", name=case["cliname"], **kw)
         if status != 0:
             bad("command failed: {}".format(str(status).split()[0]), "exit 0", "{} {}".format(status, out[-100:]))
@@ -131,14 +150,16 @@ def check_case(case):
         want_kind = "CASSETTE" if o == "cas" else "DISK"
         if kind != want_kind:
             bad("{}: the tool lists its own image as {}".format(o, "another kind" if not str(kind).startswith("ERROR") else "unreadable"), want_kind, kind)
-        elif len(fs) != 1 or bytes(fs[0]["data"]) != image or fs[0]["load"] != origin or fs[0]["exec"] not in exec_ok or fs[0]["type"] != 2:
-            bad("{}: the tool's own listing differs from the program".format(o), "1 ML file, {} bytes, load {:04X}".format(len(image), origin),
+        elif len(fs) != npre + 1 or bytes(fs[-1]["data"]) != image or fs[-1]["load"] != origin or fs[-1]["exec"] not in exec_ok or fs[-1]["type"] != 2:
+            bad("{}: the tool's own listing differs from the program".format(o), "{} ML file, {} bytes, load {:04X}".format(npre + 1, len(image), origin),
                 "{} file(s) {}".format(len(fs), [(len(f["data"]), f["load"], f["exec"]) for f in fs][:2]))
     for o in ("bin", "cas", "dsk"):
         if o not in case["out"]:
             if got[o] is not None:
                 bad("file written for a switch that was not given", "no out." + o, "exists")
             continue
+        if o == "bin" and "pre" in case:
+            continue          # a raw binary is never appended to (C10)
         if o == "bin":
             if got[o] is None:
                 bad("raw binary not written", "out.bin", "missing")
@@ -165,10 +186,11 @@ def check_case(case):
         except (tape.TapeError, dskfs.FsError) as e:
             bad("{} image is malformed".format(o), "well-formed", str(e))
             continue
-        if len(fs) != 1:
-            bad("{} image holds {} files".format(o, len(fs)), 1, len(fs))
+        if len(fs) != npre + 1:
+            bad("{} image holds {} files".format(o, len(fs)) if not npre else "{} image does not hold the earlier files plus the program".format(o),
+                npre + 1, len(fs))
             continue
-        f = fs[0]
+        f = fs[-1]
         wname = name.upper()[:8].ljust(8)
         if f["name"].upper().ljust(8)[:8] != wname:
             bad("{}: file name is not the program name".format(o), wname, f["name"])
@@ -191,7 +213,8 @@ def check_case(case):
 
 def describe(tier):
     return {
-        "alphabet": "image sizes {} x origins {} x NAM {} x --name {} x END {} x the 7 non-empty subsets of the output switches".format(
+        "alphabet": "image sizes {} x origins {} x NAM {} x --name {} x END {} x the 7 non-empty subsets of the output switches; the same onto existing cassette/disk targets holding 1-3 files with --append "
+                    "(sizes 1 39 2295 4600, 2 origins, NAM / --name / a NAM equal to a stored file's name, 4 switch sets)".format(
             SIZES, ORIGINS, NAMS, CLINAMES, ENDS),
         "bound": "full product in thorough; in quick the full product for sizes 1 and 39 and a reduced product for the other sizes",
         "oracle": "raw file = image of an independent in-process assembly; cassette/disk parsed by the independent readers hold exactly one ML file "
